@@ -198,145 +198,164 @@ func runOverflow(c *Ctx) {
 	if fn == nil {
 		return
 	}
-	pages := callTo(fn, p, "(*db.Database).page")
-	if len(pages) != 1 {
-		c.Undecided("addOverflow page read", fn.Pos(), "expected one (*Database).page call, found %d", len(pages))
+	// Path-based (the page read and the split into next pointer and content may live in a freshly extracted helper, which
+	// the enumeration walks in place): one generic iteration of the chain walk.
+	hs := loopHeaders(fn)
+	if len(hs) != 1 {
+		c.Undecided("addOverflow page read", fn.Pos(), "expected one loop over the overflow chain, found %d", len(hs))
 		return
 	}
-	var buf ssa.Value
-	for _, r := range *pages[0].Referrers() {
-		if e, ok := r.(*ssa.Extract); ok && e.Index == 0 {
-			buf = e
-		}
-	}
-	if buf == nil {
-		c.Fail("addOverflow page read", pages[0].Pos(), "the page content is discarded")
-		return
-	}
-	var next *ssa.Call
-	var content *ssa.Slice
-	for _, r := range *buf.Referrers() {
-		sl, ok := r.(*ssa.Slice)
+	h := hs[0]
+	body := loopBody(h)
+	var accPhi, pgPhi *ssa.Phi
+	for _, in := range h.Instrs {
+		ph, ok := in.(*ssa.Phi)
 		if !ok {
 			continue
 		}
-		lo, hi := int64(-1), int64(-1)
-		if sl.Low != nil {
-			lo, _ = constInt(sl.Low)
-		} else {
-			lo = 0
-		}
-		if sl.High != nil {
-			hi, _ = constInt(sl.High)
-		}
-		if lo == 0 && hi == 4 {
-			for _, rr := range *sl.Referrers() {
-				if call, ok := rr.(*ssa.Call); ok && strings.HasSuffix(calleeName(p, call), "bigEndian).Uint32") {
-					next = call
-				}
-			}
-		}
-		if lo == 4 && sl.High == nil {
-			content = sl
+		if isByteSlice(ph.Type()) {
+			accPhi = ph
+		} else if isIntType(ph.Type()) {
+			pgPhi = ph
 		}
 	}
-	c.Check(next != nil, "overflow next pointer", fn.Pos(), "the next overflow page number is the big-endian uint32 in bytes 0..3 of the overflow page")
-	c.Check(content != nil, "overflow content", fn.Pos(), "the payload continues at byte 4 of the overflow page and runs to the end of the page (U−4 bytes)")
-	if content == nil {
+	if accPhi == nil || pgPhi == nil {
+		c.Undecided("addOverflow page read", fn.Pos(), "cannot identify the assembled payload and the current overflow page number among the loop's variables")
 		return
 	}
-	// the chunk appended is the whole content slice, not a shorter re-slice
-	appended := false
-	for _, cs := range callsIn(fn) {
-		b, ok := cs.Common().Value.(*ssa.Builtin)
-		if !ok || b.Name() != "append" {
+	t := &Termer{P: p}
+	accT, pgT := t.Term(accPhi, emptyPS()), t.Term(pgPhi, emptyPS())
+	// where the walk starts
+	startOK, localOK := false, false
+	for k, pr := range h.Preds {
+		if body[pr] {
 			continue
 		}
-		arg := cs.Common().Args[1]
-		if arg == ssa.Value(content) {
-			appended = true
-			c.Pass("overflow append whole page", cs.Pos(), "each append adds a whole page's content (U−4 bytes), more than the spare capacity behind any cell of a cached page: the append reallocates and never writes into the cached page")
-		} else {
-			// accept when the base cannot share capacity: a 3-index slice or a fresh copy
-			base := cs.Common().Args[0]
-			fresh := false
-			if ph, ok := base.(*ssa.Phi); ok {
-				fresh = true
-				for _, e := range ph.Edges {
-					if e == ssa.Value(cs.(*ssa.Call)) {
-						continue
-					}
-					if sl, ok := e.(*ssa.Slice); !ok || sl.Max == nil {
-						if _, isMake := e.(*ssa.MakeSlice); !isMake {
-							fresh = false
-						}
-					}
-				}
-			}
-			if fresh {
-				appended = true
-				c.Pass("overflow append whole page", cs.Pos(), "the destination cannot share spare capacity with the cached page")
-			} else {
-				appended = true
-				c.Fail("overflow append whole page", cs.Pos(), "the chunk appended to the cell's in-page slice can be shorter than a page's content: when it fits the spare capacity behind the cell, append writes in place into the cached b-tree page and corrupts the overflow pointer and neighbouring cells for later reads")
-			}
+		if strings.HasSuffix(t.Term(pgPhi.Edges[k], emptyPS()), ".Overflow") {
+			startOK = true
+		}
+		if strings.HasSuffix(t.Term(accPhi.Edges[k], emptyPS()), ".Payload") {
+			localOK = true
 		}
 	}
-	c.Check(appended, "overflow append", fn.Pos(), "overflow content is appended to the local part")
+	paths, ok := EnumLits(h, 0, TabOpts{Termer: t, EventOf: callEvents(p),
+		Stop: func(in ssa.Instruction, ps *pathState) bool { return in == h.Instrs[0] && len(ps.Path) > 1 }})
+	if !ok {
+		c.Undecided("addOverflow page read", fn.Pos(), "too many paths")
+		return
+	}
+	nCont := 0
+	okRead, okNext, okContent, okAppend, okFollow, okLoop := true, true, true, true, true, true
+	whyLoop := ""
+	for _, lp := range paths {
+		if lp.Stop == nil || len(lp.PS.Path) < 2 {
+			continue
+		}
+		nCont++
+		pred := lp.PS.Path[len(lp.PS.Path)-2]
+		var accNext, pgNext string
+		for k, pb := range h.Preds {
+			if pb == pred {
+				eps := lp.PS.clone()
+				if eps.BlockGen != nil {
+					delete(eps.BlockGen, h)
+				}
+				accNext = reGen.ReplaceAllString(t.Term(accPhi.Edges[k], eps), "")
+				pgNext = reGen.ReplaceAllString(reOrd.ReplaceAllString(t.Term(pgPhi.Edges[k], eps), ""), "")
+			}
+		}
+		pg := eventsOf(lp, "call", "(*db.Database).page")
+		if len(pg) != 1 || len(pg[0].Args) != 2 || pg[0].Args[1] != pgT {
+			okRead = false
+			continue
+		}
+		page := "call:(*db.Database).page#0"
+		u32 := false
+		for _, e := range lp.Events {
+			if e.Kind == "call" && strings.HasSuffix(e.Name, "bigEndian).Uint32") && len(e.Args) == 2 && reGen.ReplaceAllString(e.Args[1], "") == page+"[:const:4]" {
+				u32 = true
+			}
+		}
+		if !u32 {
+			okNext = false
+		}
+		if !strings.HasPrefix(pgNext, "call:(encoding/binary.bigEndian).Uint32") {
+			okFollow = false
+		}
+		wantAcc := "append(" + accT + "," + page + "[const:4:])"
+		if accNext != wantAcc {
+			if strings.HasPrefix(accNext, "append("+accT+",") {
+				okAppend = false // something is appended, but not the page's whole content
+			} else {
+				okContent = false
+			}
+		}
+		// the iteration runs because the assembled payload is still shorter than the declared length
+		hasLen := false
+		for _, l := range lp.Lits {
+			if strings.Contains(l.Subject, "len("+accT+")") && strings.Contains(l.Subject, ".Length") {
+				hasLen = true
+			}
+		}
+		if !hasLen {
+			okLoop = false
+			whyLoop = "an iteration runs without comparing len(payload so far) with the declared length"
+		}
+	}
+	if nCont == 0 {
+		c.Fail("addOverflow page read", fn.Pos(), "the overflow walk never continues to a second page")
+		return
+	}
+	c.Check(okRead, "addOverflow page read", fn.Pos(), "each iteration reads the current page of the chain")
+	c.Check(okNext, "overflow next pointer", fn.Pos(), "the next overflow page number is the big-endian uint32 in bytes 0..3 of the overflow page")
+	c.Check(okContent, "overflow content", fn.Pos(), "the payload continues at byte 4 of the overflow page and runs to the end of the page (U−4 bytes)")
+	if okContent && !okAppend {
+		// accept when the base cannot share capacity with the cached page: a 3-index slice or a fresh copy
+		fresh := true
+		for k, pr := range h.Preds {
+			if body[pr] {
+				continue
+			}
+			e := accPhi.Edges[k]
+			if sl, isSl := e.(*ssa.Slice); !isSl || sl.Max == nil {
+				if _, isMake := e.(*ssa.MakeSlice); !isMake {
+					fresh = false
+				}
+			}
+		}
+		if fresh {
+			c.Pass("overflow append whole page", fn.Pos(), "the destination cannot share spare capacity with the cached page")
+		} else {
+			c.Fail("overflow append whole page", fn.Pos(), "the chunk appended to the cell's in-page slice can be shorter than a page's content: when it fits the spare capacity behind the cell, append writes in place into the cached b-tree page and corrupts the overflow pointer and neighbouring cells for later reads")
+		}
+	} else if okContent {
+		c.Pass("overflow append whole page", fn.Pos(), "each append adds a whole page's content (U−4 bytes), more than the spare capacity behind any cell of a cached page: the append reallocates and never writes into the cached page")
+	}
+	c.Check(okContent, "overflow append", fn.Pos(), "overflow content is appended to the local part")
 	// result cut to the declared length
 	okCut := false
-	for _, r := range returnsOf(fn) {
-		if sl, ok := r.Results[0].(*ssa.Slice); ok && sl.Low == nil && sl.High != nil {
-			if fieldName(stripLoad(stripConv(sl.High))) == "Length" || strings.HasSuffix((&Termer{P: p}).Term(sl.High, nil), ".Length") {
-				okCut = true
-			}
+	wpaths, _ := EnumLits(fn.Blocks[0], 0, TabOpts{Termer: t})
+	for _, lp := range wpaths {
+		if lp.Exit == nil || len(lp.Exit.Results) != 2 || !isNilConst(lp.PS.Resolve(lp.Exit.Results[1])) {
+			continue
+		}
+		r0 := t.Term(lp.Exit.Results[0], lp.PS)
+		if strings.HasSuffix(r0, ".Length]") && strings.Contains(r0, "[:") {
+			okCut = true
+		} else {
+			okCut = false
+			break
 		}
 	}
 	c.Check(okCut, "overflow result length", fn.Pos(), "the assembled payload is cut to the declared payload length")
-	// the walk goes on until the assembled payload reaches the declared length
-	{
-		t := &Termer{P: p}
-		hs := loopHeaders(fn)
-		okLoop := false
-		why := "no loop"
-		if len(hs) == 1 {
-			kind, w := classifyLoop(p, t, fn, hs[0])
-			why = kind + " " + w
-			if kind == "growth" {
-				// the bound compared with len(buffer) is the declared payload length
-				for b := range loopBody(hs[0]) {
-					if iff, ok := b.Instrs[len(b.Instrs)-1].(*ssa.If); ok {
-						if bo, ok := iff.Cond.(*ssa.BinOp); ok {
-							x, y := t.Term(bo.X, emptyPS()), t.Term(bo.Y, emptyPS())
-							if (strings.HasPrefix(x, "len(") && strings.HasSuffix(y, ".Length")) || (strings.HasPrefix(y, "len(") && strings.HasSuffix(x, ".Length")) {
-								okLoop = true
-							}
-						}
-					}
-				}
-			}
-		}
-		c.Check(okLoop, "overflow walk length", fn.Pos(), "overflow pages are read while the assembled payload is shorter than the declared length (so a partly filled last page is read too): %s", why)
-	}
-	// the walk starts from the cell's own overflow pointer and follows `next`
-	okFollow := false
-	for _, in := range instrs(fn) {
-		if ph, ok := in.(*ssa.Phi); ok {
-			hasStart, hasNext := false, false
-			for _, e := range ph.Edges {
-				if cv, ok := e.(*ssa.Convert); ok && next != nil && cv.X == ssa.Value(next) {
-					hasNext = true
-				}
-				if strings.HasSuffix((&Termer{P: p}).Term(e, nil), ".Overflow") {
-					hasStart = true
-				}
-			}
-			if hasStart && hasNext {
-				okFollow = true
-			}
+	if okLoop {
+		kind, w := classifyLoop(p, t, fn, h)
+		if kind != "growth" {
+			okLoop, whyLoop = false, kind+" "+w
 		}
 	}
-	c.Check(okFollow, "overflow chain", fn.Pos(), "the chain starts at the cell's overflow page and follows each page's next pointer")
+	c.Check(okLoop, "overflow walk length", fn.Pos(), "overflow pages are read while the assembled payload is shorter than the declared length (so a partly filled last page is read too): %s", whyLoop)
+	c.Check(startOK && localOK && okFollow, "overflow chain", fn.Pos(), "the chain starts at the cell's overflow page (and the cell's local payload) and follows each page's next pointer")
 }
 
 func stripLoad(v ssa.Value) ssa.Value {
@@ -375,6 +394,11 @@ func analyseDecode(p *Program, v ssa.Value, body ssa.Value, ps *pathState) decod
 	e := ec.of(v)
 	d.desc = e.String()
 	if n, ok := constInt(v); ok {
+		d.kind, d.constVal, d.bytes = "const", n, 0
+		return d
+	}
+	// a constant once the serial type under evaluation is put in (`case 8, 9: v = c - 8`)
+	if n, ok := evalInt(v, ps); ok {
 		d.kind, d.constVal, d.bytes = "const", n, 0
 		return d
 	}
@@ -526,7 +550,8 @@ func runRecTable(c *Ctx) {
 		5: {6, 48, "int", 0}, 6: {8, 64, "int", 0}, 7: {8, 0, "float", 0}, 8: {0, 0, "const", 0}, 9: {0, 0, "const", 1},
 	}
 	seen := map[string]bool{}
-	for k := int64(0); k <= 13; k++ {
+	ks := []int64{0, 1, 2, 3, 4, 5, 6, 7, 8, 9, 10, 11, 12, 13, 14, 15, 112, 113, 65548, 65549, 1 << 32, 1<<32 + 1}
+	for _, k := range ks {
 		assume := []Lit{{Subject: "serial", Op: token.EQL, C: fmt.Sprint(k), IsInt: true, N: k, Val: true}}
 		var appended ssa.Value
 		var appendedPS *pathState
@@ -677,12 +702,17 @@ func runRecTable(c *Ctx) {
 			if mi, ok := av.(*ssa.MakeInterface); ok {
 				av = mi.X
 			}
+			av = lp.PS.Resolve(av)
 			if cv, ok := av.(*ssa.Convert); ok {
-				av = cv.X
+				av = lp.PS.Resolve(cv.X)
 			}
-			if sl, ok := av.(*ssa.Slice); ok && sl.High != nil {
-				if got := ec.of(sl.High).String(); got != wantLen {
-					problems = append(problems, "value length is "+got+", the format says "+wantLen)
+			// The serial type is a concrete number on this evaluation (k), so the length expression — however it is
+			// written: (N−12)/2 and (N−13)/2 in two branches, or (N−12−N&1)/2 in one — folds to a number; it is compared
+			// with the format's value for each sampled N (12, 13, 14, 15, 112, 113, 65548, 65549, 2^32, 2^32+1).
+			wantN := (k - sub) / 2
+			if sl, ok := av.(*ssa.Slice); ok && sl.High != nil && lp.PS.Resolve(sl.X) == ssa.Value(body) && sl.Low == nil {
+				if got, ok := evalInt(sl.High, lp.PS); !ok || got != wantN {
+					problems = append(problems, fmt.Sprintf("value length is %s (= %d for N = %d), the format says %s = %d", ec.of(sl.High).String(), got, k, wantLen, wantN))
 				}
 			} else {
 				problems = append(problems, "the value is not a prefix of the body")
@@ -691,26 +721,16 @@ func runRecTable(c *Ctx) {
 				if pb != pred {
 					continue
 				}
-				if sl, ok := lp.PS.Resolve(body.Edges[i]).(*ssa.Slice); ok && sl.Low != nil {
-					if got := ec.of(sl.Low).String(); got != wantLen {
-						problems = append(problems, "body advances by "+got+", the format says "+wantLen)
+				if sl, ok := lp.PS.Resolve(body.Edges[i]).(*ssa.Slice); ok && sl.Low != nil && sl.High == nil && lp.PS.Resolve(sl.X) == ssa.Value(body) {
+					if got, ok := evalInt(sl.Low, lp.PS); !ok || got != wantN {
+						problems = append(problems, fmt.Sprintf("body advances by %s (= %d for N = %d), the format says %s = %d", ec.of(sl.Low).String(), got, k, wantLen, wantN))
 					}
 				} else {
 					problems = append(problems, "body is not advanced past the value")
 				}
 			}
-			okGuard := false
-			for _, l := range lp.Lits {
-				bo, ok := l.Cond.(*ssa.BinOp)
-				if !ok {
-					continue
-				}
-				if ((bo.Op == token.LSS && !l.Val) || (bo.Op == token.GEQ && l.Val)) && ec.of(bo.X).String() == "len(body)" && ec.of(bo.Y).String() == wantLen {
-					okGuard = true
-				}
-			}
-			if !okGuard {
-				problems = append(problems, "no guard len(body) ≥ "+wantLen)
+			if guard != wantN {
+				problems = append(problems, fmt.Sprintf("the guard requires %d bytes left for N = %d, the value occupies %s = %d", guard, k, wantLen, wantN))
 			}
 			if len(problems) == 0 {
 				c.Pass(key+"+", fn.Pos(), "%s of %s bytes: guard = length = advance", wantKind, wantLen)
